@@ -24,6 +24,7 @@ import itertools
 import json
 import multiprocessing
 import random
+import warnings
 from concurrent.futures import ThreadPoolExecutor
 from typing import Iterable, Iterator
 
@@ -38,13 +39,14 @@ PROPERTY = "C18"
 LEVEL = "model_checking"
 
 INVS = ("InvNothingBeforeEvaluate InvAtMostOncePerNode InvExactlyOnceNeeded InvCountIsDone InvValueIsEval InvGraphIsOK "
-        "InvLazyTypeOK InvLDoneOnlyNeeded InvNoCallAfterEvaluate InvBuiltDefined InvMutantsRejected InvReusedNeedNoCall")
+        "InvLazyTypeOK InvLDoneOnlyNeeded InvNoCallAfterEvaluate InvBuiltDefined InvMutantsRejected InvReusedNeedNoCall "
+        "InvOldNodesOnlySources")
 BCFG = """SPECIFICATION LBSpec
 CONSTANTS N = {n} Rich = {rich} Shard = {shard} NShards = {nshards} MaxEv = {maxev} AllKw = {allkw} MaxHandles = {maxh}
-  Modes = {modes}
+  Modes = {modes} UserCacheOn = {ucache}
 INVARIANT """ + INVS + "\n"
 UCFG = """SPECIFICATION LUSpec
-CONSTANTS N = {n} Rich = {rich} Shard = 0 NShards = 1 MaxEv = 2 AllKw = FALSE MaxHandles = 1 Modes = {{"call", "full"}}
+CONSTANTS N = {n} Rich = {rich} Shard = 0 NShards = 1 MaxEv = 2 AllKw = FALSE MaxHandles = 1 Modes = {{"call", "full"}} UserCacheOn = FALSE
 INVARIANT InvRefGraphOK InvDepEdgesStatic LEmit
 """
 # invariants re-checked on the states TLC reaches while explaining real behaviour (the action guards decide acceptance)
@@ -75,8 +77,11 @@ def observe_graph(pl, tg) -> tuple[list[dict], list[list[int]]]:
     ids = sorted(tg.graph.nodes)
     ren = {x: k + 1 for k, x in enumerate(ids)}
     nodes = []
+    known = getattr(pl, "_c18_known", {})
     for x in ids:
-        lf = tg.graph.nodes[x].get("lazy_func")
+        # a node created before the block (cached by the pipeline) enters the graph as a bare edge endpoint: identify it
+        # through the handles this pipeline returned earlier
+        lf = tg.graph.nodes[x].get("lazy_func") or known.get(x)
         fn = getattr(lf, "func", None)
         kind, f, pick = "other", type(fn).__name__, ""
         for pf in pl.functions:
@@ -92,6 +97,26 @@ def observe_graph(pl, tg) -> tuple[list[dict], list[list[int]]]:
         nodes.append({"id": ren[x], "kind": kind, "f": f, "pick": pick})
     edges = sorted([ren[a], ren[b]] for a, b in tg.graph.edges)
     return nodes, edges
+
+
+def remember_nodes(pl, h) -> None:
+    """Register every deferred node reachable from a handle under its id (harness-side book-keeping on the pipeline)."""
+    from pipefunc.lazy import _LazyFunction
+
+    known = pl.__dict__.setdefault("_c18_known", {})
+    stack = [h]
+    while stack:
+        x = stack.pop()
+        if isinstance(x, _LazyFunction):
+            if known.get(x._id) is x:
+                continue
+            known[x._id] = x
+            stack.extend(x.args)
+            stack.extend(x.kwargs.values())
+        elif isinstance(x, dict):
+            stack.extend(x.values())
+        elif isinstance(x, (list, tuple, set)):
+            stack.extend(x)
 
 
 def handle_kind(h, mode: str, kwargs: dict) -> str:
@@ -145,6 +170,7 @@ def block_history(pl, items: list[tuple], dagvar: str, k: int = 0) -> list[dict]
         pre = slim(pcall.call_events(start))
         evs.extend(pre)
         evs.append(lev(e="build", cls=handle_kind(h, mode, kwargs), n=len(pre)))
+        remember_nodes(pl, h)
         return (h,)
 
     def graph_event(tg) -> None:
@@ -212,11 +238,15 @@ def lazy_history(pl, out: str, kw_pairs: list[list], mode: str, dagvar: str, k: 
     return block_history(pl, [(out, kw_pairs, mode)], dagvar, k)
 
 
-def make_pair(pdesc_ordered: dict):
-    """The lazy pipeline and its eager twin, built from the same description (separate function objects)."""
-    with contextlib.redirect_stdout(io.StringIO()):
-        lpl = build.make_pipeline({**pdesc_ordered, "lazy": True}, tag="L:")
-        epl = build.make_pipeline({**pdesc_ordered, "lazy": False}, tag="E:")
+def make_pair(pdesc_ordered: dict, cache_type: str | None = None):
+    """The lazy pipeline and its eager twin, built from the same description (separate function objects).  A user cache
+    (cache_type + the functions' cache flags) is given to the lazy pipeline only."""
+    with contextlib.redirect_stdout(io.StringIO()), warnings.catch_warnings():
+        warnings.simplefilter("ignore")
+        extra = {"cache_type": cache_type, "cache_kwargs": {}} if cache_type else {}
+        lpl = build.make_pipeline({**pdesc_ordered, "lazy": True, **extra}, tag="L:")
+        # (cache=True functions would give the twin pipefunc's default shared LRU cache: the twin stays cache-free)
+        epl = build.make_pipeline({"funcs": [{**f, "cache": False} for f in pdesc_ordered["funcs"]], "lazy": False}, tag="E:")
     if not lpl.lazy or epl.lazy:
         raise MachineryError("build.make_pipeline did not honour desc['lazy']")
     return lpl, epl
@@ -279,7 +309,43 @@ def histories_for_case(case: dict, rng: random.Random, scheme: str) -> list[dict
             evs += block_history(lpl, [(o, [[x, pcall.kv(x)] for x in cuts[o][(oi // 2) % len(cuts[o])]], MODES[(oi + j) % 4])
                                        for j, o in enumerate(seq)], "in", oi)
         traces.append({"desc": t2, "ev": evs, "order": list(order)})
+        # the same description as a pipeline with a user cache: called before and then inside a construct_dag() block
+        if scheme == "full" or oi % 3 == 0:
+            v = oi + len(names)
+            tc = with_cache(tdesc, ["first", "all", "last"][v % 3], "lru" if v % 5 == 4 else "simple")
+            traces.append(cached_history(tc, order, [(o, [[x, pcall.kv(x)] for x in root_cut(tdesc, cuts[o])])
+                                                     for o in sorted(cuts) if cuts[o]], v))
     return traces
+
+
+def with_cache(tdesc: dict, which: str, cache_type: str) -> dict:
+    """The description as a pipeline with a user cache: `which` functions (first | last | all, in the description's order) have
+    cache=True."""
+    n = len(tdesc["funcs"])
+    sel = {"first": {0}, "last": {n - 1}, "all": set(range(n))}[which]
+    return {"funcs": [{**f, "cache": i in sel} for i, f in enumerate(tdesc["funcs"])], "cache_type": cache_type}
+
+
+def cached_history(tdesc_c: dict, order: tuple, items: list[tuple], k: int) -> dict:
+    """A lazy pipeline WITH a user cache: every (out, kw) is called once outside any construct_dag() block (or inside an
+    earlier block of its own), which leaves cached deferred nodes behind, and then again with the same inputs inside
+    `with construct_dag()`: the recorded graph then mixes nodes created before the block with new ones."""
+    pd = pcall.tla_desc_to_py(tdesc_c)
+    d2 = {"funcs": [pd["funcs"][i] for i in order]}
+    t2 = {"funcs": [tdesc_c["funcs"][i] for i in order], "cache_type": tdesc_c["cache_type"]}
+    lpl, _ = make_pair(d2, cache_type=tdesc_c["cache_type"])
+    evs: list[dict] = []
+    for j, (o, kw) in enumerate(items):
+        kk = k + j
+        evs += block_history(lpl, [(o, kw, MODES[kk % 4])], "in" if kk % 3 == 2 else "off", kk)
+        evs += block_history(lpl, [(o, kw, MODES[(kk + kk // 4) % 4])], "in" if kk % 2 == 0 else "out", kk)
+    return {"desc": t2, "ev": evs, "order": list(order), "cached": True}
+
+
+def root_cut(tdesc: dict, cs: list) -> tuple:
+    """A cut made of root names only, if there is one (the cache is not used when an intermediate is supplied)."""
+    outs = {o for f in tdesc["funcs"] for o in f["outputs"]}
+    return next((c for c in cs if not set(c) & outs), cs[0])
 
 
 def random_history(rng: random.Random, tdesc: dict) -> dict:
@@ -314,6 +380,24 @@ def random_history(rng: random.Random, tdesc: dict) -> dict:
     return {"desc": {"funcs": [tdesc["funcs"][i] for i in order]}, "ev": evs, "order": order}
 
 
+def random_cached_history(rng: random.Random, tdesc: dict) -> dict:
+    order = list(range(len(tdesc["funcs"])))
+    rng.shuffle(order)
+    outs = [o for f in tdesc["funcs"] for o in f["outputs"]]
+    roots = sorted({p for f in tdesc["funcs"] for p in f["params"]} - set(outs))
+    n = len(tdesc["funcs"])
+    sel = set(rng.sample(range(n), rng.randint(1, n)))
+    tc = {"funcs": [{**f, "cache": i in sel} for i, f in enumerate(tdesc["funcs"])], "cache_type": rng.choice(["simple", "simple", "lru"])}
+    with contextlib.redirect_stdout(io.StringIO()):
+        probe = build.make_pipeline(pcall.tla_desc_to_py(tdesc), tag="P:")
+    items = []
+    for o in rng.sample(outs, min(3, len(outs))):
+        combos = sorted(probe.arg_combinations(o))
+        c = next((c for c in combos if set(c) <= set(roots)), combos[0])
+        items.append((o, [[x, pcall.kv(x)] for x in c]))
+    return cached_history(tc, tuple(order), items, rng.randrange(12))
+
+
 # worker-process entry points (fork pool; every task is seeded by its own index: deterministic for a given --seed)
 def _w_case(arg: tuple) -> list[dict]:
     idx, case, seed, scheme = arg
@@ -325,7 +409,8 @@ def _w_random(arg: tuple) -> list[dict]:
     idx, seed = arg
     rng = random.Random(seed * 1_000_003 + 500_000 + idx)
     build.LOG.clear()
-    return [random_history(rng, c02.random_desc(rng, rng.randint(3, 6)))]
+    td = c02.random_desc(rng, rng.randint(3, 6))
+    return [random_history(rng, td), random_cached_history(rng, td)]
 
 
 # ---- verdicts ------------------------------------------------------------------------------------------
@@ -362,6 +447,7 @@ def classify(tr: dict, reached: int) -> dict:
     sig = {"check": "lazy-history", "event": e["e"], "stage": stage, "cls": e.get("cls", ""), "mode": b["mode"],
            "dag": bool(b.get("dag", False)), **c02.features(tr["desc"], b["out"], b["kw"])}
     outs = {o for f in tr["desc"]["funcs"] for o in f["outputs"]}
+    sig["user_cache"] = bool(tr["desc"].get("cache_type"))
     sig["shared_block"] = b.get("blk", 0) > 0
     if sig["shared_block"]:
         # some call of the block so far (this one included) supplies a value for a function output
@@ -478,7 +564,7 @@ def stream_validate(ctx: Ctx, name: str, trace_lists: Iterable[list[dict]], *, b
 
     def job(bi: int, trs: list[dict]):
         bctx = _BatchCtx(ctx)
-        rej = validate_traces(bctx, "TracePipelineLazy", trs, f"{name}{bi}", invariants=invs, strip=("order",), chunk=chunk)
+        rej = validate_traces(bctx, "TracePipelineLazy", trs, f"{name}{bi}", invariants=invs, strip=("order", "cached"), chunk=chunk)
         return bctx, [(r, trs[i]) for i, r in sorted(rej.items())]
 
     def submit(trs: list[dict]) -> None:
@@ -518,7 +604,9 @@ def run(ctx: Ctx) -> None:
                 "convention pipeline()/run/func/full_output, construct_dag off / active during evaluation / left before "
                 "evaluation) with its eager twin call: build, evaluate, evaluate again, task graph before and after; per output "
                 "additionally all its valid cuts, and per order one cut of every output, as successive handles inside ONE "
-                "construct_dag block; "
+                "construct_dag block; every description additionally as a pipeline with a user cache (cache_type simple/lru, "
+                "first/last/all functions cached) called once before and then again, same inputs, inside a construct_dag block "
+                "(the recorded graph mixes nodes created before the block with new ones); "
                 "descriptions are ALL members of the TLA+-defined universe of MC_PipelineCall (2 functions quick / 2 rich + 3 "
                 "functions thorough: parameters from 3 roots and earlier outputs, diamonds, tuple outputs, defaults, bound "
                 "and shadowing bound values), all listing orders, every valid cut (2 functions: in every order without dag "
@@ -528,7 +616,8 @@ def run(ctx: Ctx) -> None:
     ctx.assumptions = ["TLC and the JSON encoding are trusted", "user functions are free term constructors (build.py)",
                        "node identity in the task graph is read off _LazyFunction.func (the pipeline's PipeFunc wrapping the "
                        "harness function, or its output_picker)",
-                       "caches (cache_type=...) are not configured: lazy x cache interaction belongs to C09",
+                       "user caches only in the before-the-block/inside-the-block histories (same inputs); other lazy x cache "
+                       "interaction belongs to C09",
                        "handles of one construct_dag() block are built and evaluated one after the other (one live handle); "
                        "whether a later handle re-invokes a function already invoked with identical arguments for an earlier "
                        "handle of the block is a stated don't-care (memo/Reused in PipelineLazy.tla)"]
@@ -539,22 +628,27 @@ def run(ctx: Ctx) -> None:
     try:
         both = '{"call", "full"}'
 
-        def mc(what: str, wd: str, workers: int, heap: str = "3g", nshards: int = 1, modes: str = both, **consts) -> None:
+        def mc(what: str, wd: str, workers: int, heap: str = "3g", nshards: int = 1, modes: str = both, ucache: str = "FALSE",
+               **consts) -> None:
             for sh in range(nshards):
                 label = what + (f" shard {sh + 1}/{nshards}" if nshards > 1 else "") + " (deadlock checking on)"
                 mc_jobs.append((label, pool.submit(
-                    tlc_job, "MC_PipelineLazy", BCFG.format(shard=sh, nshards=nshards, modes=modes, **consts),
+                    tlc_job, "MC_PipelineLazy", BCFG.format(shard=sh, nshards=nshards, modes=modes, ucache=ucache, **consts),
                     ctx.workdir(f"{wd}_{sh}"), workers=workers, deadlock=True, allow_violation=False, timeout=6000, heap=heap)))
 
         if quick:
             mc("LBSpec N=2, all keyword sets", "b2", 4, n=2, rich="FALSE", maxev=2, allkw="TRUE", maxh=1)
             mc("LBSpec N=2, valid cuts, 2 handles per construct_dag block", "b2s", 3, n=2, rich="FALSE", maxev=2,
                allkw="FALSE", maxh=2)
+            mc("LBSpec N=2, valid cuts, user cache on the first / last / all functions", "b2c", 4, modes='{"call"}', ucache="TRUE",
+               n=2, rich="FALSE", maxev=2, allkw="FALSE", maxh=1)
             exports = [("LUSpec N=2", dict(n=2, rich="FALSE"), "u2", "3g", "full")]
         else:
             mc("LBSpec N=2 rich, all keyword sets, 3 evaluates", "b2r", 3, n=2, rich="TRUE", maxev=3, allkw="TRUE", maxh=1)
             mc("LBSpec N=2 rich, valid cuts, 2 handles per construct_dag block", "b2s", 3, n=2, rich="TRUE", maxev=2,
                allkw="FALSE", maxh=2)
+            mc("LBSpec N=2 rich, valid cuts, user cache on the first / last / all functions", "b2c", 3, ucache="TRUE",
+               n=2, rich="TRUE", maxev=2, allkw="FALSE", maxh=1)
             mc("LBSpec N=3, valid cuts, pipeline()/run()/func() convention", "b3", 2, heap="2g", nshards=3, modes='{"call"}',
                n=3, rich="FALSE", maxev=2, allkw="FALSE", maxh=1)
             exports = [("LUSpec N=2 rich", dict(n=2, rich="TRUE"), "u2r", "3g", "full"),
@@ -668,7 +762,7 @@ def selftest(ctx: Ctx, traces: list[dict]) -> None:
     a, b = t["ev"][k]["edges"][0]
     t["ev"][k]["edges"].append([b, a])
     add("task-graph edge added (reverse edge)", t, k)
-    rej = validate_traces(ctx, "TracePipelineLazy", batch, "selftest", invariants=[], strip=("order",), count=False)
+    rej = validate_traces(ctx, "TracePipelineLazy", batch, "selftest", invariants=[], strip=("order", "cached"), count=False)
     ctx.selftest("trace-corruption (7 single corruptions + 2 untouched histories)", rej == expect,
                  f"rejected={rej} expected={expect} ({names})")
 
